@@ -284,6 +284,54 @@ func evictPastUnremovable(shards int, dir string) []failure {
 	return nil
 }
 
+// evictManySmall: 600 entries of 64 bytes; reaching the target takes several hundred removals in ONE pass.
+func evictManySmall(backend string, shards int, dir string) []failure {
+	cfg := config.NewDefault()
+	ctx, cancel := context.WithCancel(context.Background())
+	defer cancel()
+	c := newCacheLimit(backend, cfg, shards, ctx, dir, 1<<30)
+	defer c.Destroy()
+	for i := 0; i < 600; i++ {
+		put(c, cache.FromString(fmt.Sprintf("small-%d", i)), 64, i)
+	}
+	c.VerifEvict(12500) // target 10000 bytes; 38400 are held: 444 removals
+	if got := c.VerifByteSize(); got > 10000 {
+		return []failure{{"evict-many-small", backend, shards, fmt.Sprintf("600 entries of 64 bytes, eviction to a limit of 12500 (target 10000): %d bytes are still held after the pass (%d entries removed of the 444 needed)", got, 600-int((got+63)/64))}}
+	}
+	return nil
+}
+
+// readThenEvict: real accesses, no hook sets an access time. Four equal entries stored 30 ms apart, the oldest one is
+// read, a fifth store pushes exactly one entry out: it is the least recently USED one (the second), not the one just read.
+func readThenEvict(backend string, shards int, dir string) []failure {
+	cfg := config.NewDefault()
+	ctx, cancel := context.WithCancel(context.Background())
+	defer cancel()
+	c := newCacheLimit(backend, cfg, shards, ctx, dir, 1024)
+	defer c.Destroy()
+	keys := []cache.CacheKey{cache.FromString("rte-a"), cache.FromString("rte-b"), cache.FromString("rte-c"), cache.FromString("rte-d")}
+	for i, k := range keys {
+		put(c, k, 256, i)
+		time.Sleep(30 * time.Millisecond)
+	}
+	if e, err := c.Get(keys[0]); err == nil && e.Data != nil {
+		e.Data.Close()
+	}
+	time.Sleep(30 * time.Millisecond)
+	put(c, cache.FromString("rte-e"), 256, 4) // 1280 bytes against a limit of 1024: down to 819, two entries... see below
+	gone := []string{}
+	for i, k := range keys {
+		if !has(c, k) {
+			gone = append(gone, string(rune('a'+i)))
+		}
+	}
+	// whatever the number of victims, they are taken in order of last use: b, c, d before a
+	if !has(c, keys[0]) && has(c, keys[3]) {
+		return []failure{{"read-then-evict", backend, shards, fmt.Sprintf("entries a,b,c,d stored 30 ms apart, a read again, then a store that forces an eviction: evicted %v — the entry that was read last went before entries that were used longer ago", gone)}}
+	}
+	return nil
+}
+
 // lateDestroy (file backend): a cache instance is re-created over the same directory (what a reconfiguration does) and the
 // OLD instance is destroyed only afterwards. The new instance's counters still describe what its directory holds.
 func lateDestroy(shards int, dir string) []failure {
@@ -552,6 +600,14 @@ func main() {
 				failures = append(failures, overwriteWindow(backend, shards, dir)...)
 				dist["overwrite-window/"+backend]++
 				total++
+				failures = append(failures, readThenEvict(backend, shards, dir+"-rte")...)
+				os.RemoveAll(dir + "-rte")
+				dist["read-then-evict/"+backend]++
+				total++
+				failures = append(failures, evictManySmall(backend, shards, dir+"-ms")...)
+				os.RemoveAll(dir + "-ms")
+				dist["evict-many-small/"+backend]++
+				total++
 				if backend == "file" {
 					failures = append(failures, evictPastUnremovable(shards, dir+"-eu")...)
 					os.RemoveAll(dir + "-eu")
@@ -594,7 +650,7 @@ func main() {
 	}
 	out := map[string]any{
 		"harness": "cachesched/" + *flagProp, "seed": *flagSeed, "tier": *flagTier, "total": total, "distinct": total, "distinct_nontrivial": total,
-		"rule":         "forced schedules at the cache API, both backends, 1 and 8 lock shards: C03 lock-wait (Get / GetMetadata wait 400 ms for the entry's lock while the entry's 150 ms lifetime ends: must report stale); C13 overwrite-window (a store of another key between the two counter updates of an overwriting store, cache below its limit throughout: nothing evicted); C13 evict-past-unremovable (file: the least recently used victim cannot be removed, the eviction goes on to the target); C12 remove-fails-then-store (file: a failed removal, then the key stored again), evict-during-overwrite (an eviction candidate overwritten with another length between scan and removal: counters equal what is stored), rename-fails (file: the temp file vanishes before the final rename, for a new key and for an overwrite) late-destroy-of-old-instance (file: a new instance over the same directory, the old one destroyed afterwards) and budget-to-zero (memory: budget changed to 0 % at run time with entries stored); C06 update-during-store (UpdateMetadata issued while a full store of the same key is downloading: afterwards the key holds the new body with the new object metadata)",
+		"rule":         "forced schedules at the cache API, both backends, 1 and 8 lock shards: C03 lock-wait (Get / GetMetadata wait 400 ms for the entry's lock while the entry's 150 ms lifetime ends: must report stale); C13 overwrite-window (a store of another key between the two counter updates of an overwriting store, cache below its limit throughout: nothing evicted); C13 read-then-evict (real accesses only: the entry read last is not the first victim), evict-many-small (600 x 64 bytes, one pass must remove 444 entries), evict-past-unremovable (file: the least recently used victim cannot be removed, the eviction goes on to the target); C12 remove-fails-then-store (file: a failed removal, then the key stored again), evict-during-overwrite (an eviction candidate overwritten with another length between scan and removal: counters equal what is stored), rename-fails (file: the temp file vanishes before the final rename, for a new key and for an overwrite) late-destroy-of-old-instance (file: a new instance over the same directory, the old one destroyed afterwards) and budget-to-zero (memory: budget changed to 0 % at run time with entries stored); C06 update-during-store (UpdateMetadata issued while a full store of the same key is downloading: afterwards the key holds the new body with the new object metadata)",
 		"distribution": map[string]any{"scenario": dist},
 		"samples":      []any{map[string]any{"backend": "file", "shards": 1}},
 		"files":        []string{}, "readable": []any{},
